@@ -1,0 +1,20 @@
+//go:build verif
+
+// Contracts for package handler, checked by /verif/engine (govc). Comment-only file.
+
+package handler
+
+//@ pred cdHit(c []int, S int) := bytesEq(c, 24 + 16*S, "\x01CD001") || bytesEq(c, 24 + 16*S + 8, "PLAYSTATION ")
+//@ pred cdSize(S int) := S == 2048 || S == 2328 || S == 2336 || S == 2340 || S == 2352 || S == 2368 || S == 2448
+//@ pred cdAnyHit(c []int) := cdHit(c, 2048) || cdHit(c, 2328) || cdHit(c, 2336) || cdHit(c, 2340) || cdHit(c, 2352) || cdHit(c, 2368) || cdHit(c, 2448)
+
+//@ func determineSectorSize results(r, err)
+//@   tags C04,C17
+//@   requires f != nil
+//@   modifies iofaults
+//@   ensures iofaults >= old(iofaults)
+//@   ensures[C17] err == nil && r > 0 ==> cdSize(r) && cdHit(fcontent[f], r) @found-is-hit
+//@   ensures[C17] err == nil && r > 0 ==> forall S :: cdSize(S) && S < r ==> !cdHit(fcontent[f], S) @first-hit
+//@   ensures[C17] err == nil && r <= 0 ==> r == -1 && !cdAnyHit(fcontent[f]) @none
+//@   ensures[C17] iofaults == old(iofaults) && fsize[f] >= 0x200000 ==> err == nil @no-spurious-error
+//@   ensures err != nil ==> r == -1
